@@ -25,6 +25,7 @@ type SeqScenario struct {
 	Sort   string           `json:"sort"`    // sort delivered rows of a batch by this column (when the statement leaves order open)
 	Tables []SeqTable       `json:"tables"`
 	Burst  bool             `json:"burst"` // emit every row without waiting in between (ordering / conservation); quiesce once at the end
+	Hold   string           `json:"hold"`  // burst only: name of a hook point at which the engine goroutine is held until every row has been handed in
 	Perf   *SeqPerf         `json:"perf"`  // custom performance configuration
 	Ops    []SeqOp          `json:"ops"`   // optional explicit operation list (JOIN scenarios); when empty: emit every row
 }
@@ -66,7 +67,11 @@ func decodeRow(r map[string]any) map[string]any {
 
 // RunSeq executes a sequential scenario on a fresh real instance.
 func RunSeq(sc SeqScenario) (evs []Ev, inconclusive string) {
-	in := NewInst()
+	var gates []string
+	if sc.Hold != "" {
+		gates = []string{sc.Hold}
+	}
+	in := NewInst(gates...)
 	defer in.Close()
 	var opts []streamsql.Option
 	if sc.MaxPar > 0 {
@@ -268,6 +273,11 @@ func RunSeq(sc SeqScenario) (evs []Ev, inconclusive string) {
 			}
 			in.Log(Ev{"tr": sc.Tr, "e": "delete", "i": i + 1, "table": op.Table, "key": ak, "ok": b2i(ok)})
 		}
+	}
+	if sc.Hold != "" {
+		// the producer has run ahead of the held goroutine as far as the engine lets it; now let the engine catch up
+		time.Sleep(100 * time.Millisecond)
+		in.Disarm()
 	}
 	if !in.WaitFor(T, quiet) {
 		return in.Events(), "no quiescence"
